@@ -284,9 +284,10 @@ class Sym:
         out3 = []
         for f in out2:
             out3.append(f)
-            m = re.fullmatch(r"_(\d+)", f[0])
+            m = re.fullmatch(r"_(\d+)(?:\.(\d+))?", f[0])
             if not m:
                 continue
+            fld = int(m.group(2)) if m.group(2) is not None else None
             want = None
             if f[1] == "==" and f[2] in (0, 1):
                 want = f[2]
@@ -298,7 +299,12 @@ class Sym:
             vals, other = [], []
             for d_ in ds:
                 (db, di, kind, payload) = d_
-                o = payload["rhs"]["ops"][0] if kind == "stmt" and payload["rhs"]["rv"] == "use" else {}
+                if fld is not None:
+                    # a flag carried in a tuple (`let (value, is_before) = match .. { A => (x, true), B => (y, false) }`)
+                    ops_ = payload["rhs"].get("ops", []) if kind == "stmt" and payload["rhs"]["rv"] == "agg" else []
+                    o = ops_[fld] if fld < len(ops_) else {}
+                else:
+                    o = payload["rhs"]["ops"][0] if kind == "stmt" and payload["rhs"]["rv"] == "use" else {}
                 if o.get("k") == "const" and "int" in o:
                     vals.append((o["int"], db))
                 else:
@@ -307,7 +313,7 @@ class Sym:
                 continue
             src = [db for (v, db) in vals if v == want]
             extra = None
-            if not src and len(other) == 1:
+            if not src and len(other) == 1 and fld is None:
                 # `a || b || last`: the flag is `true` on the early exits and the value of `last` otherwise; it is false only as the value of `last`
                 src = [other[0][0]]
                 extra = (self._def_val(other[0], int(m.group(1)), 0), "==", want, other[0][0])
